@@ -689,12 +689,13 @@ MANIFEST_ENTRY = {
              'level, bindown(avg)/tile(sum) and bindown(sum)/tile(avg) are adjoint, bindown undoes tile. Bayer: the four slices '
              'partition every even-shaped mosaic, recomposite(decomposite)=id and decomposite(recomposite)=id for both layouts, '
              'composite and wb_prescale act on the native site of each colour, Malvar copies the raw sample at the native site of '
-             'each channel, the four kernels are 5x5, point-symmetric and sum to 1 after normalisation. TRANSLATED from the source '
+             'each channel, the four kernels are 5x5, point-symmetric and sum to 1 after normalisation, a uniform mosaic demosaicks to the '
+             'same level everywhere; safe white-balance limiting leaves no inspected plane above saturation (any plane list). TRANSLATED from the source '
              'each run: the ADC ceiling, container-width chain and the order of full-well clip / gain / ADC clips of expose (statement '
              'by statement), bindown/tile shape formulas, reduction axes and scale factors, the Bayer slices, plane/site/gain tables, '
-             'Malvar source table, kernels and divisor. MODELLED AND COMPARED: exposure on doubles (DN compared exactly, all bit '
+             'Malvar source table, kernels and divisor, the safe-white-balance loop step and the number of planes it inspects. MODELLED AND COMPARED: exposure on doubles (DN compared exactly, all bit '
              'depths, maps, frames), N-D binning/tiling and the full Malvar demosaick (reflect boundary) on exact rationals.'),
     'note': ('Trusted: the unsigned cast of an in-range double is floor; poisson/normal are replaced by their means (statistics of '
              'the draws are not covered); NumPy reshape/broadcast/ndimage.convolve semantics (compared). Not covered: lut, '
-             'assemble_superresolved, wb_postscale limiting.'),
+             'assemble_superresolved, non-2-D aerial images.'),
 }
